@@ -74,7 +74,25 @@ SDLS = [
     type Query { pet: Pet pets: [Pet] tag: Tag @tweak hello(n: Int = 4): String @same named: Named echo(t: Tag): String open(box: Box): String }
     type Subscription { tick: Int }
     """,
+    # bundle 4: the root operation types are RENAMED by a schema definition (and one more by an extension)
+    """
+    schema { query: RootQuery }
+    extend schema { subscription: Events }
+    directive @tweak(by: String = "h") on FIELD_DEFINITION
+    directive @same on FIELD_DEFINITION | FIELD
+    directive @stamp on INPUT_FIELD_DEFINITION
+    input Box { label: String @stamp n: Int = 5 }
+    scalar Tag
+    type Cat { name: String meow: Int }
+    type Dog { name: String bark: Int }
+    union Pet = Cat | Dog
+    interface Named { name: String }
+    type Rock implements Named { name: String }
+    type RootQuery { pet: Pet pets: [Pet] tag: Tag @tweak hello(n: Int = 5): String @same named: Named echo(t: Tag): String open(box: Box): String }
+    type Events { tick: Int }
+    """,
 ]
+ROOTS = {4: ("RootQuery", "Events")}
 
 REQUESTS = [
     "{ pet { __typename ... on Cat { name meow } ... on Dog { name bark } } }",
@@ -84,6 +102,7 @@ REQUESTS = [
     "{ named { __typename name } }",
     "{ __type(name: \"Pet\") { kind possibleTypes { name } } }",
     "{ __schema { directives { name args { name defaultValue } } } }",
+    "{ __schema { queryType { name } mutationType { name } subscriptionType { name } } __typename }",
     # byte-identical operations with variables of a custom scalar / an input object carrying a directive: the
     # coercers (Scalar.coerce_input / parse_literal, on_post_input_coercion) are each bundle's own
     ("query V($t: Tag) { echo(t: $t) }", {"t": "x"}),
@@ -99,31 +118,32 @@ def name_of(i):
 
 def register(i):
     sn = name_of(i)
+    QN, SN = ROOTS.get(i, ("Query", "Subscription"))
 
     kw = {}
     if i == 0:
         kw["type_resolver"] = lambda result, ctx, info, abstract: "Cat"      # field-level: everything is a Cat
 
-    @Resolver("Query.pet", schema_name=sn, **kw)
+    @Resolver(QN + ".pet", schema_name=sn, **kw)
     async def pet(p, a, c, info):
         return {"_typename": "Dog", "name": "b%d-dog" % i, "bark": i, "meow": -i}
 
-    @Resolver("Query.pets", schema_name=sn, **kw)
+    @Resolver(QN + ".pets", schema_name=sn, **kw)
     async def pets(p, a, c, info):
         return [{"_typename": "Dog", "name": "d", "bark": 10 + i, "meow": -1},
                 {"_typename": "Cat", "name": "c", "meow": 20 + i, "bark": -2}]
 
-    @Resolver("Query.tag", schema_name=sn)
+    @Resolver(QN + ".tag", schema_name=sn)
     async def tag(p, a, c, info):
         return "t"
 
-    @Resolver("Query.hello", schema_name=sn)
+    @Resolver(QN + ".hello", schema_name=sn)
     async def hello(p, a, c, info):
         return "b%d:%s" % (i, a.get("n"))
 
-    @Resolver("Query.named", schema_name=sn)
+    @Resolver(QN + ".named", schema_name=sn)
     async def named(p, a, c, info):
-        return {"_typename": ["Robot", "Cat", "Rock", "Rock"][i], "name": "n%d" % i}
+        return {"_typename": ["Robot", "Cat", "Rock", "Rock", "Rock"][i], "name": "n%d" % i}
 
     if i == 1:
         @TypeResolver("Pet", schema_name=sn)
@@ -141,11 +161,11 @@ def register(i):
         def parse_literal(self, ast):
             return "lit%d<%s>" % (i, ast.value)
 
-    @Resolver("Query.echo", schema_name=sn)
+    @Resolver(QN + ".echo", schema_name=sn)
     async def echo(p, a, c, info):
         return "b%d:%r" % (i, a.get("t"))
 
-    @Resolver("Query.open", schema_name=sn)
+    @Resolver(QN + ".open", schema_name=sn)
     async def open_(p, a, c, info):
         return "b%d:%s" % (i, json.dumps(a.get("box"), sort_keys=True))
 
@@ -180,7 +200,7 @@ def register(i):
             r = await next_resolver(parent, args, ctx, info)
             return "%s|same%d" % (r, i)
 
-    @Subscription("Subscription.tick", schema_name=sn)
+    @Subscription(SN + ".tick", schema_name=sn)
     async def tick(p, a, c, info):
         for k in range(2):
             yield {"tick": 100 * i + k}
